@@ -11,7 +11,10 @@ use std::collections::BTreeSet;
 use sudachi::analysis::stateless_tokenizer::DictionaryAccess;
 use sudachi::dic::category_type::CategoryType;
 use sudachi::dic::dictionary::JapaneseDictionary;
+use sudachi::analysis::stateful_tokenizer::StatefulTokenizer;
+use sudachi::error::SudachiError;
 use sudachi::input_text::InputBuffer;
+use sudachi::prelude::MorphemeList;
 use unicode_normalization::char::canonical_combining_class;
 use unicode_normalization::{is_nfkc_quick, IsNormalized, UnicodeNormalization};
 
@@ -51,7 +54,12 @@ fn word(rng: &mut Rng, pool: &[char], lo: usize, hi: usize) -> String {
 pub fn gen_cfg(rng: &mut Rng, directed: Option<usize>) -> Cfg {
     let k = rng.range(3, 7);
     let mut pool: Vec<char> = (0..k).map(|_| *rng.pick(POOL)).collect();
-    let mut pipe: Vec<char> = match rng.below(10) {
+    let mut pipe: Vec<char> = match rng.below(11) {
+        10 => {
+            // the default plugin twice: the second one must choose its path from the text the first one left
+            // (`commit` empties the character cache), not from the characters cached before
+            match rng.below(3) { 0 => vec!['D', 'D'], 1 => vec!['D', 'P', 'D'], _ => vec!['D', 'Y', 'D'] }
+        }
         0..=4 => vec!['D'],
         5 => vec!['P'],
         6 => vec!['Y'],
@@ -365,8 +373,35 @@ pub(crate) fn facts_for(seed_chars: &BTreeSet<char>, cl: &Classes) -> String {
     join(all.iter().map(|&c| fact(c, cl)), ";")
 }
 
-/// the clauses of the Lean predicate `UniOk`, evaluated on real Unicode data for every shipped character
-fn unihyp(run: &mut Run, chars: &BTreeSet<char>) {
+/// what step 2 of `replace_slow` writes for one character according to the MODEL (`Normalize.charOut`), computed from
+/// the real tables: the (need_lowercase, need_nfkc) match, then "nothing when the iterator is empty or starts with the character"
+fn model_char_out(c: char, exempt: bool) -> Vec<char> {
+    let need_lower = code_upper(c);
+    let need_nfkc = !exempt && qc_of(c) != 0;
+    let data: Option<Vec<char>> = match (need_lower, need_nfkc) {
+        (false, false) => None,
+        (true, false) => Some(c.to_lowercase().collect()),
+        (false, true) => Some(std::iter::once(c).nfkc().collect()),
+        (true, true) => Some(c.to_lowercase().nfkc().collect()),
+    };
+    match data {
+        None => vec![c],
+        Some(d) if d.is_empty() || d[0] == c => vec![c],
+        Some(d) => d,
+    }
+}
+
+/// the specification's image of a character not covered by a key (`Normalize.specChar`)
+fn spec_char(c: char, exempt: bool) -> Vec<char> {
+    if exempt { c.to_lowercase().collect() } else { c.to_lowercase().nfkc().collect() }
+}
+
+/// Everything the Lean theorems assume of the Unicode tables, CHECKED against the real crates for every shipped
+/// character: the eight clauses of `UniOk` and the exact (weakest) assumption `CharOk` (`charOut = specChar`, exempt or
+/// not).  A violated clause is reported as a failure (key `unihyp:<clause>`), not only counted: the theorems would not
+/// apply to the shipped data.
+fn unihyp(run: &mut Run, idx: usize, chars: &BTreeSet<char>) {
+    let mut bad: Vec<(&'static str, char)> = vec![];
     for &c in chars {
         run.bump("unihyp:characters-checked");
         let up = code_upper(c);
@@ -374,13 +409,25 @@ fn unihyp(run: &mut Run, chars: &BTreeSet<char>) {
         let lower: Vec<char> = c.to_lowercase().collect();
         let n1: Vec<char> = std::iter::once(c).nfkc().collect();
         let nl: Vec<char> = c.to_lowercase().nfkc().collect();
-        if !up && lower != vec![c] { run.bump("unihyp:VIOLATED lower_id (not is_uppercase but to_lowercase changes it)"); }
-        if q && n1 != vec![c] { run.bump("unihyp:VIOLATED nfkc_id"); }
-        if up && q && nl != lower { run.bump("unihyp:VIOLATED lower_nfkc"); }
-        if lower.is_empty() || n1.is_empty() || nl.is_empty() { run.bump("unihyp:VIOLATED non-empty"); }
-        if lower[0] == c && lower.len() > 1 { run.bump("unihyp:VIOLATED lower_head"); }
-        if n1[0] == c && n1.len() > 1 { run.bump("unihyp:VIOLATED nfkc_head"); }
-        if nl[0] == c && nl.len() > 1 { run.bump("unihyp:VIOLATED nfkcl_head"); }
+        if !up && lower != vec![c] { bad.push(("lower_id", c)); }
+        if q && n1 != vec![c] { bad.push(("nfkc_id", c)); }
+        if up && q && nl != lower { bad.push(("lower_nfkc", c)); }
+        if lower.is_empty() { bad.push(("lower_ne", c)); }
+        if n1.is_empty() || nl.is_empty() { bad.push(("nfkc_ne", c)); }
+        if !lower.is_empty() && lower[0] == c && lower.len() > 1 { bad.push(("lower_head", c)); }
+        if !n1.is_empty() && n1[0] == c && n1.len() > 1 { bad.push(("nfkc_head", c)); }
+        if !nl.is_empty() && nl[0] == c && nl.len() > 1 { bad.push(("nfkcl_head", c)); }
+        // consistency of the shipped table itself: NFKC of a one-character lower case is the NFKC fact of that character
+        if lower.len() == 1 && nl != std::iter::once(lower[0]).nfkc().collect::<Vec<char>>() { bad.push(("nfkcL-vs-nfkc1", c)); }
+        // ASCII is always quick-check clean and a starter (the `c <= 0x7f` shortcut of quick_check)
+        if (c as u32) <= 0x7f && (!q || canonical_combining_class(c) != 0) { bad.push(("ascii-shortcut", c)); }
+        for exempt in [false, true] {
+            if model_char_out(c, exempt) != spec_char(c, exempt) { bad.push(("CharOk", c)); }
+        }
+    }
+    for (clause, c) in bad {
+        run.bump(&format!("unihyp:VIOLATED {}", clause));
+        run.fail(idx, &format!("unihyp:{}", clause), &format!("the Unicode tables violate the model assumption {} at U+{:04X}", clause, c as u32));
     }
 }
 
@@ -470,19 +517,48 @@ fn yomi_spec(cl: &Classes, yl: &[char], yr: &[char], n: usize, text: &str) -> St
 
 // ---------------------------------------------------------------------------------------------
 
-fn run_plugins(dic: &JapaneseDictionary, text: &str, upto: Option<usize>) -> Result<Vec<(String, Vec<usize>)>, String> {
-    let r = catch(|| -> Result<Vec<(String, Vec<usize>)>, String> {
-        let mut buf = InputBuffer::from(text);
+/// text and offset map (entry of each character's first byte, then the sentinel entry) after a plugin
+type Stage = (String, Vec<usize>);
+
+/// what one analysis of the input part gives: the stages that completed and how it ended
+#[derive(Clone, Debug, PartialEq)]
+pub struct Obs {
+    stages: Vec<Stage>,
+    /// None = completed; Some("toolong") = `Err(InputTooLong)` from `start_build` (no stage) or from a plugin's commit
+    end: Option<String>,
+}
+
+fn stage_of(buf: &InputBuffer) -> Stage {
+    let cur = buf.current().to_string();
+    let mut m: Vec<usize> = cur.char_indices().map(|(b, _)| buf.get_original_index(b)).collect();
+    m.push(buf.get_original_index(cur.len()));
+    (cur, m)
+}
+
+fn is_too_long(e: &SudachiError) -> bool {
+    matches!(e, SudachiError::InputTooLong(_, _))
+}
+
+/// reset / push_str / start_build / the plugins (at most `upto`) on `buf`, whatever it held before; `build` when asked.
+/// Err = an error other than InputTooLong, or a panic
+fn analyse_input(dic: &JapaneseDictionary, buf: &mut InputBuffer, text: &str, upto: Option<usize>, build: bool) -> Result<Obs, String> {
+    let r = catch(|| -> Result<Obs, String> {
+        buf.reset().push_str(text);
+        if let Err(e) = buf.start_build() {
+            return if is_too_long(&e) { Ok(Obs { stages: vec![], end: Some("toolong".into()) }) } else { Err(format!("{:?}", e)) };
+        }
         let mut stages = vec![];
         for (i, p) in dic.input_text_plugins().iter().enumerate() {
             if let Some(u) = upto { if i >= u { break; } }
-            p.rewrite(&mut buf).map_err(|e| format!("{:?}", e))?;
-            let cur = buf.current().to_string();
-            let mut m: Vec<usize> = cur.char_indices().map(|(b, _)| buf.get_original_index(b)).collect();
-            m.push(buf.get_original_index(cur.len()));
-            stages.push((cur, m));
+            if let Err(e) = p.rewrite(buf) {
+                return if is_too_long(&e) { Ok(Obs { stages, end: Some("toolong".into()) }) } else { Err(format!("{:?}", e)) };
+            }
+            stages.push(stage_of(buf));
         }
-        Ok(stages)
+        if build {
+            buf.build(dic.grammar()).map_err(|e| format!("{:?}", e))?;
+        }
+        Ok(Obs { stages, end: None })
     });
     match r {
         Ok(Ok(x)) => Ok(x),
@@ -491,27 +567,92 @@ fn run_plugins(dic: &JapaneseDictionary, text: &str, upto: Option<usize>) -> Res
     }
 }
 
+/// a new buffer per text
+fn run_plugins(dic: &JapaneseDictionary, text: &str, upto: Option<usize>) -> Result<Obs, String> {
+    let mut buf = InputBuffer::new();
+    analyse_input(dic, &mut buf, text, upto, false)
+}
+
 /// the same text through a buffer that was used for other texts before (reset + fill + start_build + plugins + build)
-fn run_plugins_recycled(dic: &JapaneseDictionary, buf: &mut InputBuffer, text: &str) -> Result<Vec<(String, Vec<usize>)>, String> {
-    let r = catch(|| -> Result<Vec<(String, Vec<usize>)>, String> {
-        buf.reset().push_str(text);
-        buf.start_build().map_err(|e| format!("{:?}", e))?;
-        let mut stages = vec![];
-        for p in dic.input_text_plugins().iter() {
-            p.rewrite(buf).map_err(|e| format!("{:?}", e))?;
-            let cur = buf.current().to_string();
-            let mut m: Vec<usize> = cur.char_indices().map(|(b, _)| buf.get_original_index(b)).collect();
-            m.push(buf.get_original_index(cur.len()));
-            stages.push((cur, m));
+fn run_plugins_recycled(dic: &JapaneseDictionary, buf: &mut InputBuffer, text: &str) -> Result<Obs, String> {
+    analyse_input(dic, buf, text, None, true)
+}
+
+/// hidden state of a buffer after an analysis: (state 0 Clean / 1 RW / 2 RO, byte length of the scratch string `modified_2`)
+fn hidden(buf: &InputBuffer) -> (u8, usize) {
+    let t = buf.verif_tables();
+    (t.state, t.modified_2_len)
+}
+
+/// A long-lived analyser the way the CLI and the bindings use one: ONE StatefulTokenizer and ONE MorphemeList analyse the
+/// history texts (reset / push_str / do_tokenize / collect_results - the two swap their input buffers on every successful
+/// call, so a text meets the buffer of the call before last), then the text of the case.  Observed on the tokenizer's
+/// buffer right after `do_tokenize`: final text, offset map, hidden state.
+struct TokObs {
+    /// None = InputTooLong
+    fin: Option<Stage>,
+    hidden: (u8, usize),
+}
+
+fn analyse_on_tokenizer(dic: &JapaneseDictionary, tok: &mut StatefulTokenizer<&JapaneseDictionary>, ml: &mut MorphemeList<&JapaneseDictionary>, hist: &[String], text: &str) -> Result<TokObs, String> {
+    let _ = dic;
+    let r = catch(|| -> Result<TokObs, String> {
+        for h in hist {
+            tok.reset().push_str(h);
+            match tok.do_tokenize() {
+                Ok(()) => ml.collect_results(tok).map_err(|e| format!("collect_results: {:?}", e))?,
+                Err(e) if is_too_long(&e) => {}
+                Err(e) => return Err(format!("history text {:?}: {:?}", h.chars().take(20).collect::<String>(), e)),
+            }
         }
-        buf.build(dic.grammar()).map_err(|e| format!("{:?}", e))?;
-        Ok(stages)
+        tok.reset().push_str(text);
+        match tok.do_tokenize() {
+            Ok(()) => {
+                let t = tok.verif_input().verif_tables();
+                let mut m: Vec<usize> = t.modified.char_indices().map(|(b, _)| t.m2o[b]).collect();
+                m.push(t.m2o[t.modified.len()]);
+                Ok(TokObs { fin: Some((t.modified.clone(), m)), hidden: (t.state, t.modified_2_len) })
+            }
+            Err(e) if is_too_long(&e) => Ok(TokObs { fin: None, hidden: hidden(tok.verif_input()) }),
+            Err(e) => Err(format!("{:?}", e)),
+        }
     });
     match r {
         Ok(Ok(x)) => Ok(x),
         Ok(Err(e)) => Err(format!("err {}", e)),
         Err(p) => Err(format!("PANIC {}", p)),
     }
+}
+
+/// the same discipline on two bare buffers (tokenizer's and list's, swapped after every successful analysis), which lets
+/// the harness look at the text after EVERY plugin
+fn analyse_on_buffers(dic: &JapaneseDictionary, hist: &[String], text: &str) -> Result<(Obs, (u8, usize)), String> {
+    let mut a = InputBuffer::new();
+    let mut b = InputBuffer::new();
+    for h in hist {
+        match analyse_input(dic, &mut a, h, None, true) {
+            Ok(o) => { if o.end.is_none() { std::mem::swap(&mut a, &mut b); } }
+            Err(e) => return Err(format!("history text: {}", e)),
+        }
+    }
+    let o = analyse_input(dic, &mut a, text, None, true)?;
+    let h = hidden(&a);
+    Ok((o, h))
+}
+
+/// a text on the wire: code points, a run of 8 or more equal characters as `c*n`; `-` = the empty text inside a list
+fn wire_text(s: &str, in_list: bool) -> String {
+    if s.is_empty() { return if in_list { "-".into() } else { String::new() }; }
+    let cs: Vec<char> = s.chars().collect();
+    let mut out: Vec<String> = vec![];
+    let mut i = 0;
+    while i < cs.len() {
+        let mut j = i;
+        while j < cs.len() && cs[j] == cs[i] { j += 1; }
+        if j - i >= 8 { out.push(format!("{}*{}", cs[i] as u32, j - i)); } else { for _ in i..j { out.push((cs[i] as u32).to_string()); } }
+        i = j;
+    }
+    out.join(",")
 }
 
 pub(crate) fn plugin_json(cfg: &Cfg, p: char) -> String {
@@ -591,7 +732,7 @@ pub fn run(run: &mut Run) {
     run.rule = "random rewrite tables (prefix-related keys, multi-character keys/values, exempt characters, duplicates, malformed lines, \
 comments, CRLF, ideographic-space separators) x plugin stacks (default / prolonged-sound-mark / yomigana in every order) x texts over a small \
 pool (keys embedded, fast-path-only and slow-path texts, combining marks, title-case letters, astral characters) + blocks of the \
-every-scalar sweep over the shipped rewrite.def (alone, after 'A', before 'a'); non-trivial = some stage changed the text; distinct by payload".into();
+every-scalar sweep over the shipped rewrite.def (alone, after 'A', before 'a'; every second block on one recycled tokenizer); about half of the cases on RECYCLED objects (one StatefulTokenizer + one MorphemeList, and two swapped bare buffers for the per-plugin view, after 1-4 other texts: empty, shorter, longer, already normalised, rejected by start_build, rejected inside commit), texts at the 49149-byte input limit and rewrites beyond 65535 bytes, pipes with the default plugin twice; non-trivial = some stage changed the text; distinct by payload".into();
     let earliest = impl_earliest();
     run.extra.insert("model_instance_earliest".into(), serde_json::json!(earliest));
     let system = tiny_system();
@@ -613,8 +754,22 @@ every-scalar sweep over the shipped rewrite.def (alone, after 'A', before 'a'); 
         let cfg = &ld.cfg;
         let directed = if grp < DIRECTED_CFGS { Some(grp) } else { None };
         let mut rng = Rng::for_case(run.opts.seed, idx);
-        let text = gen_text(&mut rng, cfg, directed, sub);
-        one_case(run, idx, ld, &text, earliest);
+        let mut text = gen_text(&mut rng, cfg, directed, sub);
+        // about half of the cases run on RECYCLED objects; the expected answer does not change
+        let mut hrng = Rng::for_case(run.opts.seed ^ 0x4157_0C07, idx);
+        let mut hist = if hrng.chance(1, 2) { Some(gen_history(&mut hrng, cfg)) } else { None };
+        if directed.is_none() && hrng.chance(1, 150) {
+            // the limits on the text of the case itself
+            // (the filler is a character no plugin touches, so the accepted ones are copied through)
+            let used = |c: char| cfg.table.as_ref().map_or(false, |t| t.1.iter().any(|(k, _)| k.contains(c))) || cfg.marks.contains(&c);
+            let filler = ['a', 'b', 'c', 'e', '1'].into_iter().find(|c| !used(*c)).unwrap_or('x');
+            text = if hrng.chance(1, 2) { filler.to_string().repeat(49148 + hrng.below(4)) } else { long_expanding(&mut hrng, cfg) };
+        }
+        // directed histories: the shapes the seeded change C07b needs (an already-normalised text two calls earlier)
+        if directed == Some(0) && sub == 1 { hist = Some(vec!["abc".into(), "Ｚ".into()]); }
+        if directed == Some(1) && sub == 0 { hist = Some(vec!["あ".into(), "".into(), "a".repeat(49150)]); }
+        if directed == Some(2) && sub == 0 { hist = Some(vec!["漢字".into()]); }
+        one_case(run, idx, ld, &text, hist, earliest);
     }
     // ---- every-scalar sweep over the shipped table
     let (t, tab) = shipped_table();
@@ -640,15 +795,66 @@ every-scalar sweep over the shipped rewrite.def (alone, after 'A', before 'a'); 
     }
 }
 
-fn one_case(run: &mut Run, idx: usize, ld: &Loaded, text: &str, earliest: bool) {
+/// texts a long-lived analyser saw before the text of the case: 1-4 of them, of other lengths (empty, shorter, longer),
+/// already-normalised ones (they leave the buffer after a fast-path run) and ones that were REJECTED (too long for
+/// `start_build`; too long only after rewriting, i.e. rejected in the middle of `rewrite_input`)
+fn gen_history(rng: &mut Rng, cfg: &Cfg) -> Vec<String> {
+    let n = rng.range(1, 4);
+    let mut v = vec![];
+    for _ in 0..n {
+        let t = match rng.below(24) {
+            0 | 1 => String::new(),
+            2..=4 => {
+                // longer than any case text
+                let mut s = String::new();
+                for _ in 0..rng.range(3, 6) { s.push_str(&gen_text(rng, cfg, None, 0)); }
+                s
+            }
+            5..=8 => gen_text(rng, cfg, None, 0).chars().filter(|c| !code_upper(*c) && is_nfkc_quick(std::iter::once(*c)) == IsNormalized::Yes).collect(),
+            9 if rng.chance(1, 3) => "a".repeat(49150 + rng.below(3)),
+            10 if rng.chance(1, 3) => long_expanding(rng, cfg),
+            _ => gen_text(rng, cfg, None, 0),
+        };
+        v.push(t);
+    }
+    v
+}
+
+/// a text below the input limit (49 149 bytes) that the configured plugins may blow up beyond 65 535 bytes
+fn long_expanding(rng: &mut Rng, cfg: &Cfg) -> String {
+    if cfg.pipe.contains(&'D') || !cfg.pipe.contains(&'P') || cfg.marks.is_empty() {
+        // U+FDFA: 3 bytes, NFKC 18 characters / 33 bytes
+        let n = rng.range(1986, 2100);
+        let mut s = "\u{fdfa}".repeat(n);
+        if rng.chance(1, 2) { s.push_str("Ａ"); }
+        s
+    } else {
+        // runs of two marks, each replaced by the replacement symbol
+        let m = cfg.marks[0];
+        let unit = format!("{}{}a", m, m);
+        unit.repeat(49149 / unit.len())
+    }
+}
+
+/// expected end of a stage by the naive specification: the rewritten text, or None when it exceeds 65 535 bytes
+fn limit(want: String) -> Option<String> {
+    if want.len() > 65535 { None } else { Some(want) }
+}
+
+fn one_case(run: &mut Run, idx: usize, ld: &Loaded, text: &str, hist: Option<Vec<String>>, earliest: bool) {
     let cfg = &ld.cfg;
     let pipe_s: String = cfg.pipe.iter().collect();
     run.bump(&format!("pipe:{}", pipe_s));
+    run.bump(if hist.is_some() { "objects:recycled (tokenizer + result list with history)" } else { "objects:new" });
+    let hist_payload = match &hist {
+        None => String::new(),
+        Some(h) => format!(" hist={}", h.iter().map(|t| wire_text(t, true)).collect::<Vec<_>>().join(";")),
+    };
     let dic = match &ld.dic {
         None => {
             // the configuration is rejected at load
             let ans = if ld.load_err.starts_with("PANIC") { "PANIC" } else { "err" };
-            let payload = format!("{} uni= text={}", setup_payload(cfg, earliest), cps(text));
+            let payload = format!("{} uni={} text={}", setup_payload(cfg, earliest), hist_payload, wire_text(text, false));
             run.case(idx, "run", &payload, ans, false);
             run.bump("outcome:load-error");
             let expected_err = (cfg.pipe.contains(&'D') && cfg.table.is_none())
@@ -664,50 +870,122 @@ fn one_case(run: &mut Run, idx: usize, ld: &Loaded, text: &str, earliest: bool) 
     let cl = Classes { dic };
     let mut chars: BTreeSet<char> = cfg_chars(cfg);
     chars.extend(text.chars());
-    let payload = format!("{} uni={} text={}", setup_payload(cfg, earliest), facts_for(&chars, &cl), cps(text));
-    unihyp(run, &chars);
+    if let Some(h) = &hist { for t in h { chars.extend(t.chars()); } }
+    let payload = format!("{} uni={}{} text={}", setup_payload(cfg, earliest), facts_for(&chars, &cl), hist_payload, wire_text(text, false));
     if cfg.pipe.contains(&'D') && cfg.table.is_none() {
         run.bump("generator-expected-load-error-but-loaded");
     }
-    let res = run_plugins(dic, text, None);
-    let stages = match res {
+    // ---- the observation: on new objects, or on recycled ones
+    let mut tok_obs: Option<TokObs> = None;
+    let mut buf_hidden = (0u8, 0usize);
+    let res: Result<Obs, String> = match &hist {
+        None => run_plugins(dic, text, None),
+        Some(h) => {
+            for t in h {
+                run.bump(&format!("history-text:{}", if t.is_empty() { "empty" } else if t.len() > 49149 { "rejected-by-start_build" } else if t.len() > 5000 { "long-expanding(rejected-in-commit-if-D)" } else if t.chars().count() > text.chars().count() { "longer" } else { "shorter-or-equal" }));
+            }
+            run.bump(&format!("history-len:{}", h.len()));
+            let mut tok = StatefulTokenizer::new(dic, sudachi::analysis::Mode::C);
+            let mut ml = MorphemeList::empty(dic);
+            match analyse_on_tokenizer(dic, &mut tok, &mut ml, h, text) {
+                Ok(t) => { tok_obs = Some(t); analyse_on_buffers(dic, h, text).map(|(o, hd)| { buf_hidden = hd; o }) }
+                Err(e) => Err(e),
+            }
+        }
+    };
+    let obs = match res {
         Err(e) => {
             let ans = if e.starts_with("PANIC") { "PANIC".to_string() } else { "err-rewrite".to_string() };
             run.case(idx, "run", &payload, &ans, true);
+            unihyp(run, idx, &chars);
             run.bump("outcome:rewrite-failed");
-            run.fail(idx, &format!("total:{}", pipe_s), &format!("rewriting failed on {:?}: {}", text, e));
+            run.fail(idx, &format!("total:{}", pipe_s), &format!("rewriting failed on {:?}: {}", text.chars().take(40).collect::<String>(), e));
             return;
         }
         Ok(s) => s,
     };
-    let ans = format!("ok {}", stages.iter().map(|(t, m)| format!("t={} m={}", cps(t), join(m.iter(), ","))).collect::<Vec<_>>().join(" "));
+    let stages = &obs.stages;
+    // ---- the answer line
+    let mut ans = String::from("ok");
+    {
+        let mut prev: &str = text;
+        for (i, (t, m)) in stages.iter().enumerate() {
+            ans.push_str(&format!(" t={} m={}", cps(t), join(m.iter(), ",")));
+            if cfg.pipe[i] == 'D' { ans.push_str(&format!(" q={}", slow_path(prev) as u8)); }
+            prev = t;
+        }
+    }
+    if obs.end.is_some() { ans.push_str(" toolong"); }
+    if let Some(t) = &tok_obs {
+        if let Some((ft, fm)) = &t.fin { ans.push_str(&format!(" fin={} fm={}", cps(ft), join(fm.iter(), ","))); }
+        ans.push_str(&format!(" rec={}:{}", t.hidden.0, t.hidden.1));
+    }
     let changed = stages.last().map_or(false, |s| s.0 != text);
     run.case(idx, "run", &payload, &ans, changed);
-    run.bump("outcome:ok");
+    unihyp(run, idx, &chars);
+    run.bump(if obs.end.is_some() { "outcome:too-long" } else { "outcome:ok" });
     if slow_path(text) { run.bump("default-path:slow(if D first)"); } else { run.bump("default-path:fast(if D first)"); }
-    run.bump(&format!("text-len:{}", (text.chars().count() / 4) * 4));
+    run.bump(&format!("text-len:{}", (text.chars().count().min(64) / 4) * 4));
+    // ---- oracle: the tokenizer + result list and the two bare buffers are the same discipline
+    if let Some(t) = &tok_obs {
+        let last: Option<&Stage> = if obs.end.is_none() { stages.last() } else { None };
+        if t.fin.as_ref() != last || t.hidden != buf_hidden {
+            run.fail(idx, &format!("history:tokenizer:{}", pipe_s), &format!(
+                "after the same history the tokenizer's buffer holds {:?} (hidden {:?}), two swapped bare buffers give {:?} (hidden {:?})",
+                t.fin.as_ref().map(|s| s.0.chars().take(40).collect::<String>()), t.hidden, last.map(|s| s.0.chars().take(40).collect::<String>()), buf_hidden));
+        }
+    }
     // ---- oracle: the rewritten text is a function of the input alone - a recycled buffer gives the same stages
     {
         let mut rb = ld.recycled.borrow_mut();
         match run_plugins_recycled(dic, &mut rb, text) {
             Ok(rs) => {
                 run.bump("recycled-buffer:compared");
-                if rs != stages {
+                let fresh = if hist.is_some() { run_plugins(dic, text, None).ok() } else { Some(obs.clone()) };
+                if Some(&rs) != fresh.as_ref() {
                     run.fail(idx, &format!("history:{}", pipe_s), &format!(
                         "the same text {:?} through a buffer that held other texts before gives {:?}, through a new buffer {:?}",
-                        text, rs.iter().map(|s| s.0.clone()).collect::<Vec<_>>(), stages.iter().map(|s| s.0.clone()).collect::<Vec<_>>()));
+                        text.chars().take(40).collect::<String>(), rs.stages.iter().map(|s| s.0.chars().take(40).collect::<String>()).collect::<Vec<_>>(),
+                        fresh.map(|f| f.stages.iter().map(|s| s.0.chars().take(40).collect::<String>()).collect::<Vec<_>>())));
                 }
             }
             Err(e) => {
                 *rb = InputBuffer::new();
-                run.fail(idx, &format!("history:{}", pipe_s), &format!("rewriting {:?} failed in a recycled buffer although it succeeds in a new one: {}", text, e));
+                run.fail(idx, &format!("history:{}", pipe_s), &format!("rewriting {:?} failed in a recycled buffer although it succeeds in a new one: {}", text.chars().take(40).collect::<String>(), e));
             }
         }
+    }
+    // ---- oracle: the input limit
+    if text.len() > 49149 {
+        if obs.end.is_some() && stages.is_empty() { run.bump("limit:input-rejected"); } else {
+            run.fail(idx, "limit:input", &format!("a text of {} bytes (limit 49149) was not rejected by start_build", text.len()));
+        }
+        return;
     }
     // ---- oracle: each stage against the naive specification applied to the previous stage's actual output
     let mut prev = text.to_string();
     for (i, &p) in cfg.pipe.iter().enumerate() {
-        let got = &stages[i].0;
+        let want: Option<String> = match p {
+            'D' => match &cfg.table { Some((ign, pairs)) => limit(norm_spec(ign, pairs, &prev, KeyPick::Longest, false)), None => break },
+            'P' => limit(psm_spec(&cfg.marks, &cfg.rep.clone().unwrap_or_else(|| "ー".to_string()), &prev)),
+            _ => limit(yomi_spec(&cl, &cfg.yl, &cfg.yr, cfg.yn, &prev)),
+        };
+        let got: Option<&String> = stages.get(i).map(|s| &s.0);
+        let (want, got) = match (want, got) {
+            (None, None) => {
+                run.bump("limit:rewritten-text-rejected");
+                break;
+            }
+            (None, Some(g)) => {
+                run.fail(idx, "limit:rewritten", &format!("plugin {} produced {} bytes although the limit is 65535", p, g.len()));
+                break;
+            }
+            (Some(w), None) => {
+                run.fail(idx, &format!("total:{}", pipe_s), &format!("plugin {} rejected a text whose rewrite has {} bytes (limit 65535)", p, w.len()));
+                break;
+            }
+            (Some(w), Some(g)) => (w, g),
+        };
         match p {
             'D' => {
                 if let Some((ign, pairs)) = &cfg.table {
@@ -716,15 +994,12 @@ fn one_case(run: &mut Run, idx: usize, ld: &Loaded, text: &str, earliest: bool) 
                 }
             }
             'P' => {
-                let rep = cfg.rep.clone().unwrap_or_else(|| "ー".to_string());
-                let want = psm_spec(&cfg.marks, &rep, &prev);
                 if *got != want {
-                    run.fail(idx, "psm", &format!("prolonged sound marks {:?}->{:?}: {:?} became {:?}, the maximal runs of >=2 marks give {:?}", cfg.marks, rep, prev, got, want));
+                    run.fail(idx, "psm", &format!("prolonged sound marks {:?}->{:?}: {:?} became {:?}, the maximal runs of >=2 marks give {:?}", cfg.marks, cfg.rep, prev, got, want));
                 }
                 if want != prev { run.bump("psm:collapsed"); }
             }
             _ => {
-                let want = yomi_spec(&cl, &cfg.yl, &cfg.yr, cfg.yn, &prev);
                 if *got != want {
                     run.fail(idx, "yomigana", &format!("yomigana {:?}/{:?}/{}: {:?} became {:?}, the described spans give {:?}", cfg.yl, cfg.yr, cfg.yn, prev, got, want));
                 }
@@ -734,7 +1009,7 @@ fn one_case(run: &mut Run, idx: usize, ld: &Loaded, text: &str, earliest: bool) 
         prev = got.clone();
     }
     // ---- oracle: two-run context relation for the default plugin when it runs first
-    if cfg.pipe[0] == 'D' {
+    if cfg.pipe[0] == 'D' && !stages.is_empty() && text.len() < 5000 {
         if let Some((ign, pairs)) = &cfg.table {
             for x in ['Ｚ', 'Q', '㌔'] {
                 if pairs.iter().any(|(k, _)| k.contains(x)) { continue; }
@@ -742,6 +1017,8 @@ fn one_case(run: &mut Run, idx: usize, ld: &Loaded, text: &str, earliest: bool) 
                 let t2 = format!("{}{}", text, x);
                 let (r2, rx) = (run_plugins(dic, &t2, Some(1)), run_plugins(dic, &x.to_string(), Some(1)));
                 if let (Ok(r2), Ok(rx)) = (r2, rx) {
+                    if r2.stages.is_empty() || rx.stages.is_empty() { break; }
+                    let (r2, rx) = (r2.stages, rx.stages);
                     let want = format!("{}{}", alone, rx[0].0);
                     if r2[0].0 != want {
                         let d9 = r2[0].0 == norm_spec(ign, pairs, &t2, KeyPick::Shortest, true) && alone == norm_spec(ign, pairs, text, KeyPick::Longest, true);
@@ -803,16 +1080,28 @@ fn sweep_block(run: &mut Run, idx: usize, ld: &Loaded, from: u32, n: u32, earlie
         run.bump("sweep:empty-block(surrogates)");
         return;
     }
-    unihyp(run, &chars);
     // facts only for the swept characters (the table's own characters never reach the per-character path unmatched
     // unless they occur in the block, in which case they are in `chars`)
     let payload = format!("{} uni={} texts={}", setup_payload(cfg, earliest), facts_for(&chars, &cl), texts.iter().map(|t| cps(t)).collect::<Vec<_>>().join(";"));
     let mut outs = vec![];
     let mut any_change = false;
+    // every second block runs on ONE recycled tokenizer + result list (each text meets the buffer of the text before last)
+    let recycled = (from / n) % 2 == 1;
+    run.bump(if recycled { "sweep:blocks-on-a-recycled-tokenizer" } else { "sweep:blocks-on-new-buffers" });
+    let mut tok = StatefulTokenizer::new(dic, sudachi::analysis::Mode::C);
+    let mut ml = MorphemeList::empty(dic);
     for t in &texts {
-        match run_plugins(dic, t, None) {
-            Ok(s) => {
-                let o = s[0].0.clone();
+        let r: Result<String, String> = if recycled {
+            analyse_on_tokenizer(dic, &mut tok, &mut ml, &[], t).and_then(|o| {
+                let fin = o.fin.map(|f| f.0).ok_or_else(|| "err InputTooLong".to_string());
+                let _ = catch(|| { let _ = ml.collect_results(&mut tok); });
+                fin
+            })
+        } else {
+            run_plugins(dic, t, None).and_then(|o| if o.end.is_some() { Err("err InputTooLong".into()) } else { Ok(o.stages[0].0.clone()) })
+        };
+        match r {
+            Ok(o) => {
                 if &o != t { any_change = true; }
                 outs.push(o);
             }
@@ -824,6 +1113,7 @@ fn sweep_block(run: &mut Run, idx: usize, ld: &Loaded, from: u32, n: u32, earlie
     }
     let ans = format!("ok {}", outs.iter().map(|o| if o == "PANIC" || o == "err-rewrite" { o.clone() } else { cps(o) }).collect::<Vec<_>>().join(";"));
     run.case(idx, "sweep", &payload, &ans, any_change);
+    unihyp(run, idx, &chars);
     run.bump("sweep:blocks");
     run.bump_by("sweep:scalars", (texts.len() / 3) as u64);
     // oracle: specification, and the per-character context relation
